@@ -264,7 +264,21 @@ impl C05 {
                 "construction"
             }
             2 => {
-                let (sch, _) = crate::gen::bdl::gen_schedule_blocks(&mut rng, 1);
+                let (mut sch, _) = crate::gen::bdl::gen_schedule_blocks(&mut rng, 1);
+                // names of their own: a block that happens to repeat an existing name would be a redefinition, not an unrelated addition
+                let names: Vec<String> = sch.iter().map(|b| b.name.clone()).collect();
+                for b in sch.iter_mut() {
+                    b.name = format!("ajeno_{}", b.name);
+                    for (_, v) in b.attrs.iter_mut() {
+                        if let crate::gen::bdl::AVal::StrList(l) = v {
+                            for x in l.iter_mut() {
+                                if names.contains(x) {
+                                    *x = format!("ajeno_{}", x);
+                                }
+                            }
+                        }
+                    }
+                }
                 b2.schedules.extend(sch);
                 "schedules"
             }
